@@ -1,4 +1,7 @@
 import HcipyVerif.Lemmas.Coronagraph
+import HcipyVerif.Lemmas.CoronagraphMat
+import HcipyVerif.Lemmas.CoronagraphMS
+import HcipyVerif.Lemmas.CoronagraphLyot
 import Mathlib.Algebra.Order.Field.Rat
 import Mathlib.Algebra.Order.Floor.Ring
 import Mathlib.Data.Rat.Floor
@@ -10,15 +13,24 @@ import Mathlib.Tactic.Positivity
 
 Theorems about the executable model `HcipyVerif/Model/Coronagraph.lean`.
 
-* Perfect coronagraph (`perfect_coronagraph.py`).  The model's operator is exact Gram–Schmidt on
-  the sampled modes; the theorems hold for *every* list of modes (linearly dependent or not),
-  every aperture, every grid and every order, over any ordered field (run at `ℚ`, read at `ℝ`).
-  What is modelled, not proved: that LAPACK's QR followed by the truncated-SVD pseudo-inverse
-  yields this operator — checked by the correspondence on every run.  Complex fields are the
-  pair (real part, imaginary part) of vectors; the operator acts on each (real modes).
+* Perfect coronagraph (`perfect_coronagraph.py`), two models, both run by the driver.
+  (a) `perfect`: exact Gram–Schmidt on the sampled modes; the `perfect_*` theorems hold for every
+  list of modes over any ordered field (run at `ℚ`, read at `ℝ`).  For linearly *dependent* modes
+  this is a statement about the model only (`0/0 = 0` makes a dependent step the identity, LAPACK's
+  QR completes the basis with arbitrary directions): the harness compares (a) with the code only
+  when the model finds full rank.
+  (b) `perfectMat T T⁺ c E = E − T (c ∘ (T⁺ E))` (round 4): the expression `forward` evaluates, for
+  arbitrary matrices; the `perfectMat_*` theorems derive the clauses from three decidable
+  predicates (`LeftInv`, `WAdjoint`, `NullsModes`) that the driver evaluates on the real object's
+  matrices on every run — dependent modes, complex apertures (real `2n × 2k` form), weighted
+  grids and user-supplied `coeffs` included.  What stays an assumption is only that these
+  predicates hold up to rounding (1e-9) for what LAPACK returns; their defects are reported.
+  Complex fields are the pair (real part, imaginary part) of vectors.
 * Lyot coronagraphs (`lyot.py`): identities of the forward algebra for arbitrary matrices `F`, `B`
   over any commutative ring (run at the Gaussian rationals).
-* Multi-scale coronagraphs (`multi_scale.py`, `vortex.py`): level bookkeeping.  The clause
+* Multi-scale coronagraphs (`multi_scale.py`, `vortex.py`): level bookkeeping, and (round 4) the
+  algebra of the constructor's mask recursion and of `forward` on arbitrary linear stand-ins for
+  the Fourier operators (telescoping on nested supports, wavelength bookkeeping).  The clause
   "< 1 % on axis, > 50 % at 10 λ/D" is a statement about discretisation error with no identity
   behind it: it is **not decided by any theorem here**; the harness measures it.
 -/
@@ -162,6 +174,152 @@ order 4 nulls `1 + 2x` and leaves `x²`'s residual. -/
 example : (perfectCoronagraph (K := Rat) #v[1, 1, 1] #v[-1, 0, 1] #v[0, 0, 0] 4 #v[-1, 1, 3]).toList
     = [0, 0, 0] := by decide +kernel
 
+/-! ## perfect coronagraph: the operator the code literally evaluates (round 4)
+
+`perfectMat T T⁺ c E = E − T (c ∘ (T⁺ E))` is `PerfectCoronagraph.forward` for *arbitrary*
+matrices.  The driver runs this very definition on the real object's `transformation`,
+`transformation_inverse`, `coeffs` (exact rationals; complex matrices in their real `2n × 2k`
+form) and reports the defects of the three hypotheses below for them (op `pmat`), so the clauses
+are tied to the code through the predicates `LeftInv` (`T⁺ T = I`), `WAdjoint` (`T⁺ = μ Tᵀ W`,
+i.e. `T⁺ = Tᴴ` on a regular grid) and `NullsModes` (`span(modes) ⊆ range T`, stated as "every
+mode is mapped to zero") — whatever QR did with linearly dependent modes. -/
+section Literal
+variable {K : Type} {n k : ℕ}
+
+/-- The operator is linear (any commutative ring, any matrices, any `coeffs`). -/
+theorem perfectMat_linear [CommRing K] (T : Vector (Vector K k) n) (Tinv : Vector (Vector K n) k)
+    (c : Vector K k) (x y : Vector K n) (a : K) :
+    toFn (perfectMat T Tinv c (Vector.ofFn fun i => x[i] + a * y[i])) =
+      toFn (perfectMat T Tinv c x) + a • toFn (perfectMat T Tinv c y) := by
+  rw [toFn_perfectMat, toFn_perfectMat, toFn_perfectMat, toFn_ofFn, ← perfectMatF_smul, ← perfectMatF_add]
+  rfl
+
+/-- **Aperture × any polynomial of total degree below `order/2` is nulled** by the code's operator
+as soon as it nulls the `order/2·(order/2+1)/2` modes themselves (`NullsModes`: decidable, reported
+by the driver for the real matrices). -/
+theorem perfectMat_nulls_polynomial [CommRing K] (T : Vector (Vector K k) n) (Tinv : Vector (Vector K n) k)
+    (cf : Vector K k) (a x y : Vector K n) (order : ℕ) (hm : NullsModes T Tinv cf a x y order)
+    (c : ℕ → ℕ → K) (E : Vector K n)
+    (hE : ∀ i : Fin n, E[i] = a[i] * ∑ d ∈ Finset.range (order / 2), ∑ j ∈ Finset.range (d + 1),
+      c j (d - j) * x[i] ^ j * y[i] ^ (d - j)) :
+    perfectMat T Tinv cf E = zeroVec K n := by
+  apply toFn_injective
+  have hsum : toFn E = ∑ d ∈ Finset.range (order / 2), ∑ j ∈ Finset.range (d + 1),
+      c j (d - j) • toFn (mode a x y (j, d - j)) := by
+    funext i
+    simp only [Finset.sum_apply, Pi.smul_apply, smul_eq_mul, toFn_mode']
+    have := hE i
+    simp only [toFn] at *
+    rw [this, Finset.mul_sum]
+    refine Finset.sum_congr rfl fun d _ => ?_
+    rw [Finset.mul_sum]
+    refine Finset.sum_congr rfl fun j _ => ?_
+    ring
+  rw [toFn_perfectMat, hsum, toFn_zeroVec]
+  have hadd : ∀ (s : Finset ℕ) (f : ℕ → Fin n → K),
+      perfectMatF (toFn2 T) (toFn2 Tinv) (toFn cf) (∑ d ∈ s, f d) =
+        ∑ d ∈ s, perfectMatF (toFn2 T) (toFn2 Tinv) (toFn cf) (f d) := by
+    intro s f
+    induction s using Finset.induction_on with
+    | empty => simp [perfectMatF_zero]
+    | insert d s hd ih => rw [Finset.sum_insert hd, Finset.sum_insert hd, perfectMatF_add, ih]
+  rw [hadd]
+  refine Finset.sum_eq_zero fun d hd => ?_
+  rw [hadd]
+  refine Finset.sum_eq_zero fun j hj => ?_
+  rw [perfectMatF_smul]
+  have hd' := Finset.mem_range.1 hd
+  have hj' := Finset.mem_range.1 hj
+  have := hm (j, d - j) (mem_modeExps (by omega))
+  rw [← toFn_perfectMat, this, toFn_zeroVec, smul_zero]
+
+/-- **The flat wavefront over the aperture is nulled** (any order ≥ 2) under `NullsModes`. -/
+theorem perfectMat_nulls_flat [CommRing K] (T : Vector (Vector K k) n) (Tinv : Vector (Vector K n) k)
+    (cf : Vector K k) (a x y : Vector K n) (order : ℕ) (ho : 2 ≤ order)
+    (hm : NullsModes T Tinv cf a x y order) : perfectMat T Tinv cf a = zeroVec K n := by
+  apply perfectMat_nulls_polynomial T Tinv cf a x y order hm (fun j k => if j = 0 ∧ k = 0 then 1 else 0)
+  intro i
+  have h0 : 0 < order / 2 := by omega
+  rw [Finset.sum_eq_single_of_mem 0 (Finset.mem_range.2 h0)]
+  · simp
+  · intro d _ hd
+    apply Finset.sum_eq_zero
+    intro j _
+    have : ¬ (j = 0 ∧ d - j = 0) := by omega
+    simp [this]
+
+/-- Everything in the range of `T` is nulled when `T⁺ T = I` and `coeffs = 1`. -/
+theorem perfectMat_nulls_range [CommRing K] (T : Vector (Vector K k) n) (Tinv : Vector (Vector K n) k)
+    (h : LeftInv T Tinv) (b : Vector K k) :
+    perfectMat T Tinv (onesVec K k) (matVec T b) = zeroVec K n := by
+  apply toFn_injective
+  rw [toFn_perfectMat, toFn_onesVec, toFn_zeroVec, toFn_matVec]
+  exact perfectMatF_range _ _ ((leftInv_iff T Tinv).1 h) (toFn b)
+
+/-- **Partial suppression** (user-supplied `coeffs`, [Guyon2006]): when `T⁺ T = I` the `l`-th
+orthogonalised mode is attenuated by exactly `1 − coeffs_l`, for every combination `T b` of them:
+`P_c (T b) = T ((1 − c) ∘ b)`.  (`coeffs = 1`: nulled — `perfectMat_nulls_range`; `coeffs = 0`: passed.)
+Tied by harness part B, cases with user coefficients: op `papply` on the columns of the real
+`transformation` with the real `coeffs`. -/
+theorem perfectMat_partial_suppression [CommRing K] (T : Vector (Vector K k) n) (Tinv : Vector (Vector K n) k)
+    (h : LeftInv T Tinv) (c b : Vector K k) :
+    perfectMat T Tinv c (matVec T b) = matVec T (Vector.ofFn fun j => (1 - c[j]) * b[j]) := by
+  apply toFn_injective
+  rw [toFn_perfectMat, toFn_matVec, toFn_matVec, toFn_ofFn]
+  exact perfectMatF_range_coeffs _ _ ((leftInv_iff T Tinv).1 h) (toFn c) (toFn b)
+
+/-- **The matrix the object reports for itself is the operator `forward` applies**:
+`get_transformation_matrix_forward() · E = forward(E)` for any matrices and coefficients
+(`perfectMatrix` = `np.eye(n) − T.dot(coeffs[:, None] * T⁺)`, the expression after D109; op `pmatrix`
+compares it entry by entry with what the real method returns). -/
+theorem perfectMatrix_apply [CommRing K] (T : Vector (Vector K k) n) (Tinv : Vector (Vector K n) k)
+    (c : Vector K k) (E : Vector K n) :
+    matVec (perfectMatrix T Tinv c) E = perfectMat T Tinv c E :=
+  toFn_injective (toFn_matVec_perfectMatrix T Tinv c E)
+
+/-- **Idempotent** when `T⁺ T = I` and `coeffs = 1` (any commutative ring: no orthogonality is
+needed, so this covers complex apertures directly). -/
+theorem perfectMat_idempotent [CommRing K] (T : Vector (Vector K k) n) (Tinv : Vector (Vector K n) k)
+    (h : LeftInv T Tinv) (E : Vector K n) :
+    perfectMat T Tinv (onesVec K k) (perfectMat T Tinv (onesVec K k) E) =
+      perfectMat T Tinv (onesVec K k) E := by
+  apply toFn_injective
+  rw [toFn_perfectMat, toFn_perfectMat, toFn_onesVec]
+  exact perfectMatF_idem _ _ ((leftInv_iff T Tinv).1 h) _
+
+/-- **Weighted power never increases** — `total_power = Σ w_i |E_i|²` with the grid weights `w ≥ 0` —
+when `T⁺ T = I` and `T⁺` is (a positive multiple `μ` of) the adjoint of `T` *in the inner product
+weighted by `w`*.  For the code (`T⁺ = Tᴴ`, unweighted QR) `WAdjoint` holds exactly when the
+weights are constant on the support of `T`: this is the restriction to regular grids, and
+`perfectMat_weighted_power_counterexample` shows it cannot be dropped. -/
+theorem perfectMat_power_le [Field K] [LinearOrder K] [IsStrictOrderedRing K]
+    (T : Vector (Vector K k) n) (Tinv : Vector (Vector K n) k) (w : Vector K n) (mu : K)
+    (h : LeftInv T Tinv) (hadj : WAdjoint T Tinv w mu) (hmu : 0 < mu) (hw : ∀ i : Fin n, 0 ≤ w[i])
+    (E : Vector K n) :
+    powerW w (perfectMat T Tinv (onesVec K k) E) ≤ powerW w E := by
+  rw [powerW_eq, powerW_eq, toFn_perfectMat, toFn_onesVec]
+  exact perfectMatF_pw_le _ _ (toFn w) mu ((leftInv_iff T Tinv).1 h) ((wAdjoint_iff T Tinv w mu).1 hadj) hmu hw _
+
+/-- The hypotheses are satisfiable: two points, the normalised constant mode, unit weights. -/
+example : let T : Vector (Vector ℚ 1) 2 := #v[#v[1], #v[1]]
+    let Tinv : Vector (Vector ℚ 2) 1 := #v[#v[1/2, 1/2]]
+    LeftInv T Tinv ∧ WAdjoint T Tinv #v[1, 1] (1/2) ∧
+      NullsModes T Tinv (onesVec ℚ 1) #v[1, 1] #v[0, 1] #v[0, 0] 2 := by decide +kernel
+
+/-- **The restriction to constant weights is necessary**: on the two-point grid with weights
+`(1, 8)` the projector onto the complement of the flat mode — orthogonal in the *unweighted*
+product, as the code's QR makes it — maps `E = (1, 0)` (power 1) to `(1/2, −1/2)` (power 9/4).
+The same numbers come out of the real `PerfectCoronagraph` (harness part B, weighted grids). -/
+theorem perfectMat_weighted_power_counterexample :
+    let T : Vector (Vector ℚ 1) 2 := #v[#v[1], #v[1]]
+    let Tinv : Vector (Vector ℚ 2) 1 := #v[#v[1/2, 1/2]]
+    let w : Vector ℚ 2 := #v[1, 8]
+    LeftInv T Tinv ∧ WAdjoint T Tinv #v[1, 1] (1/2) ∧
+      powerW w #v[1, 0] = 1 ∧ powerW w (perfectMat T Tinv (onesVec ℚ 1) #v[1, 0]) = 9 / 4 ∧
+      powerW w (perfect [#v[1, 1]] #v[1, 0]) = 9 / 4 := by decide +kernel
+
+end Literal
+
 /-! ## Lyot coronagraphs -/
 section Lyot
 variable {K : Type} [CommRing K] {m n : ℕ}
@@ -200,6 +358,80 @@ theorem occulted_opaque_mask (F : Vector (Vector K n) m) (B : Vector (Vector K m
     rw [h k]; ring
   unfold occultedForward
   simp only [hz, matVec_zeroVec]
+
+/-! ### `backward` (round 4)
+
+`lyotBackward` / `occultedBackward` are the literal `backward` methods (the stop acts first and
+conjugated, the mask conjugated, the propagator pair used in the same order); ops `lyotb`,
+`occultedb` run them on the stand-ins of harness part C next to the real methods. -/
+
+/-- `backward` is `forward` through the conjugated mask, without a stop, applied to the field
+already multiplied by the conjugated stop. -/
+theorem lyot_backward_eq_forward (cj : K → K) (F : Vector (Vector K n) m) (B : Vector (Vector K m) n)
+    (mask : Vector K m) (stop : Option (Vector K n)) (y : Vector K n) :
+    lyotBackward cj F B mask stop y =
+      lyotForward F B (Vector.ofFn fun k => cj mask[k]) none
+        (match stop with
+         | none => y
+         | some s => Vector.ofFn fun i => y[i] * cj s[i]) :=
+  lyotBackward_eq_forward cj F B mask stop y
+
+/-- **Fully transmissive mask, backward**: the input times the conjugated Lyot stop (arbitrary `F`, `B`). -/
+theorem lyot_backward_transparent_mask (cj : K → K) (hcj : cj 1 = 1) (F : Vector (Vector K n) m)
+    (B : Vector (Vector K m) n) (mask : Vector K m) (stop : Option (Vector K n)) (y : Vector K n)
+    (h : ∀ k : Fin m, mask[k] = 1) :
+    lyotBackward cj F B mask stop y =
+      match stop with
+      | none => y
+      | some s => Vector.ofFn fun i => y[i] * cj s[i] := by
+  have hk : ∀ k : Fin m, (Vector.ofFn fun k : Fin m => cj mask[k])[k] = 1 := fun k => by have hm := h k; simp only [Fin.getElem_fin] at hm; simp [hm, hcj]
+  rw [lyotBackward_eq_forward, lyot_transparent_mask F B _ none _ hk]
+  cases stop <;> rfl
+
+/-- **Fully opaque mask, backward**: the occulting Lyot coronagraph returns nothing. -/
+theorem occulted_backward_opaque_mask (cj : K → K) (hcj : cj 0 = 0) (F : Vector (Vector K n) m)
+    (B : Vector (Vector K m) n) (mask : Vector K m) (y : Vector K n) (h : ∀ k : Fin m, mask[k] = 0) :
+    occultedBackward cj F B mask y = zeroVec K n := by
+  have hk : ∀ k : Fin m, (Vector.ofFn fun k : Fin m => cj mask[k])[k] = 0 := fun k => by have hm := h k; simp only [Fin.getElem_fin] at hm; simp [hm, hcj]
+  have he : occultedBackward cj F B mask y = occultedForward F B (Vector.ofFn fun k => cj mask[k]) y := by
+    unfold occultedBackward occultedForward
+    simp
+  rw [he, occulted_opaque_mask F B _ y hk]
+
+/-- **`backward` is the adjoint of `forward`** in `⟨u, v⟩ = Σ conj(u_i) v_i` whenever the
+propagator's `backward` is the adjoint of its `forward` (`B = Fᴴ`: the decidable predicate
+`propAdjointDefect = 0`, reported by op `lyotadj` for the stand-ins), for every mask, stop and
+conjugation `cj` (an involutive ring homomorphism): `⟨y, forward x⟩ = ⟨backward y, x⟩`. -/
+theorem lyot_backward_adjoint (cj : K →+* K) (hinv : ∀ a, cj (cj a) = a)
+    (F : Vector (Vector K n) m) (B : Vector (Vector K m) n) (mask : Vector K m) (stop : Option (Vector K n))
+    (x y : Vector K n) (hadj : ∀ (i : Fin n) (k : Fin m), propAdjointDefect cj F B i k = 0) :
+    cdot cj y (lyotForward F B mask stop x) = cdot cj (lyotBackward cj F B mask stop y) x := by
+  have hb : ∀ i k, toFn2 B i k = cj (toFn2 F k i) := by
+    intro i k
+    have := hadj i k
+    unfold propAdjointDefect at this
+    exact sub_eq_zero.1 this
+  rw [cdot_eq, cdot_eq, lyotBackward_eq_forward, toFn_lyotForward_none]
+  have hm : toFn (Vector.ofFn fun k => cj mask[k]) = fun k => cj (toFn mask k) := by rw [toFn_ofFn]; rfl
+  rw [hm]
+  cases stop with
+  | none =>
+    rw [toFn_lyotForward_none]
+    exact lyotCoreF_adjoint cj hinv _ _ hb _ _ _
+  | some s =>
+    rw [toFn_lyotForward_some]
+    simp only [toFn_ofFn]
+    have := lyotCoreF_adjoint cj hinv (toFn2 F) (toFn2 B) hb (toFn mask) (toFn x) (fun i : Fin n => y[i] * cj s[i])
+    rw [← this]
+    refine Finset.sum_congr rfl fun i _ => ?_
+    simp only [toFn]
+    rw [map_mul, hinv]; ring
+
+
+/-- The hypothesis is satisfiable and the identity evaluated at the Gaussian rationals is checked by the
+driver on every run (op `lyotadj`); here over `ℚ` with the trivial conjugation. -/
+example : ∀ (i : Fin 2) (k : Fin 1), propAdjointDefect (K := ℚ) id #v[#v[1, 2]] #v[#v[1], #v[2]] i k = 0 := by
+  decide +kernel
 
 end Lyot
 
@@ -362,30 +594,131 @@ example : let p : MSParams := ⟨32, 32, 1/32, 1/32, 1024, 4, 32⟩
 
 end MultiScale
 
-/-! ## the perfect coronagraph for an arbitrary orthonormal family (real or complex)
+/-! ## multi-scale coronagraphs: the algebra of the construction (round 4)
 
-What the code literally computes is `E − T (T⁺ E)` with `T` the matrix returned by QR.  For *any*
-finite orthonormal family `v` (the columns of `T`; `T⁺ = Tᴴ`) in *any* real or complex
-inner-product space — so also for complex apertures — the three clauses hold; the middle one is
-Bessel's inequality.  "QR returns orthonormal columns whose span contains the modes" is the
-modelled assumption; the correspondence checks its consequences on every run. -/
+`msMasks` / `msForward` model the constructor's mask recursion (`focal_mask *= 1 - w`,
+`focal_mask -= resample(focal_masks[j])`) and `forward` (`Σ_i prop_i.backward(mask_i · prop_i(E))`,
+Lyot stop) for arbitrary linear stand-ins of the propagators and resamplers; the driver op
+`msalg` runs them and the harness compares masks level by level and the output with the real
+`MultiScaleCoronagraph` / `VortexCoronagraph` / `FQPMCoronagraph` running on the same stand-ins. -/
+section MultiScaleAlgebra
+variable {K : Type} {d n : ℕ}
+
+/-- **Telescoping — the design invariant behind the window and padding arithmetic.**  When every
+level samples the same mask `m` on one focal plane, sees the samples of its support `S_i` through
+the restrictions of one pair of operators `F`, `B`, resampling between levels is exact, and the
+windows are nested in the supports (`nestedOK`: the window of level `i` vanishes outside `S_i` and
+outside `S_{i+1}`; `S_0` is everything) — then the masks the constructor's recursion arrives at
+are `m (w_{i-1} − w_i)` and the sum over the levels collapses:
+`Σ_i B_i (M_i · F_i E) = B (m · F E)`, whatever the windows, for any number of levels.
+`level_extent` / `level_geometry` are what makes the real level grids satisfy the hypotheses
+(finer level = exactly the window of the coarser one, window centred on the origin sample). -/
+theorem multiscale_telescopes [CommRing K] [BEq K] [LawfulBEq K]
+    (m : Vector K d) (F : Vector (Vector K n) d) (B : Vector (Vector K d) n)
+    (sps : List (Vector Bool d × Vector K d)) (hne : sps ≠ [])
+    (hok : nestedOK (onesVec K d) sps = true) (stop : Option (Vector K n)) (E : Vector K n) :
+    msForward (exactLevels m F B sps) stop E =
+      match stop with
+      | none => idealForward m F B E
+      | some s => Vector.ofFn fun i => (idealForward m F B E)[i] * s[i] := by
+  have h : msSum (exactLevels m F B sps) (msMasks (exactLevels m F B sps)) E = idealForward m F B E :=
+    toFn_injective (toFn_msForward_exact m F B sps hne hok E)
+  unfold msForward
+  simp only [h]
+  cases stop <;> rfl
+
+/-- The masks themselves: on the exact design the recursion yields `m (w_{i-1} − w_i)` (with
+`w_{-1} = 1`) and `m w_{L-2}` on the last level. -/
+theorem multiscale_masks [CommRing K] (m : Vector K d) (F : Vector (Vector K n) d) (B : Vector (Vector K d) n)
+    (sps : List (Vector Bool d × Vector K d)) :
+    (msMasks (exactLevels m F B sps)).map toFn = expMasks (toFn m) (fun _ => 1) sps := by
+  have := msMasksAux_exact m F B sps [] (fun _ => 1) (by funext p; simp)
+  simpa [msMasks, exactLevels] using this
+
+/-- Hypotheses satisfiable, and the identity evaluated: three levels on a six-sample plane with
+supports `6 ⊇ 4 ⊇ 2`, windows supported in the next level, arbitrary `F`, `B`, mask. -/
+example : let m : Vector ℚ 6 := #v[2, -1, 3, 5, -2, 7]
+    let F : Vector (Vector ℚ 2) 6 := #v[#v[1, 2], #v[0, 1], #v[3, -1], #v[1, 1], #v[2, 0], #v[-1, 4]]
+    let B : Vector (Vector ℚ 6) 2 := #v[#v[1, 0, 2, -1, 3, 1], #v[0, 1, 1, 2, -2, 5]]
+    let sps : List (Vector Bool 6 × Vector ℚ 6) :=
+      [(#v[true, true, true, true, true, true], #v[0, 1/2, 1, 1, 1/2, 0]),
+       (#v[false, true, true, true, true, false], #v[0, 0, 1/3, 1, 0, 0]),
+       (#v[false, false, true, true, false, false], #v[0, 0, 0, 0, 0, 0])]
+    nestedOK (onesVec ℚ 6) sps = true ∧
+      msForward (exactLevels m F B sps) none #v[1, 3] = idealForward m F B #v[1, 3] := by
+  decide +kernel
+
+/-- **Telescoping for `backward`.**  `msBackward` is the literal `MultiScaleCoronagraph.backward`
+(conjugated Lyot stop first, every stored mask conjugated).  On the exact design the conjugated
+masks `conj(m)(conj w_{i-1} − conj w_i)` telescope exactly like the masks themselves (windows real
+or not): `backward(y) = B (conj(m) · F (conj(stop) · y))`, for any number of levels and any ring
+homomorphism `cj`.  Ops `msalgb` (real constructor + real `backward` on
+stand-ins) and `msteleb` (this identity at the Gaussian rationals). -/
+theorem multiscale_backward_telescopes [CommRing K] [BEq K] [LawfulBEq K] (cj : K →+* K)
+    (m : Vector K d) (F : Vector (Vector K n) d) (B : Vector (Vector K d) n)
+    (sps : List (Vector Bool d × Vector K d)) (hne : sps ≠ [])
+    (hok : nestedOK (onesVec K d) sps = true)
+    (stop : Option (Vector K n)) (y : Vector K n) :
+    msBackward cj (exactLevels m F B sps) stop y =
+      idealForward (Vector.ofFn fun p => cj m[p]) F B
+        (match stop with
+         | none => y
+         | some s => Vector.ofFn fun i => y[i] * cj s[i]) := by
+  have h : ∀ y' : Vector K n, msBackward cj (exactLevels m F B sps) none y' =
+      idealForward (Vector.ofFn fun p => cj m[p]) F B y' :=
+    fun y' => toFn_injective (toFn_msBackward_exact cj m F B sps hne hok y')
+  cases stop with
+  | none => exact h y
+  | some s => exact h _
+
+/-- **Achromaticity after rescaling**: `forward` calls its propagators at wavelength 1 whatever
+the wavelength of the input, so the output field does not depend on the wavelength, and the output
+carries the input's wavelength.  (Tied by op `msalg`: the stand-in propagators record the
+wavelength they are called with.) -/
+theorem multiscale_wavelength_free [OfNat K 0] [OfNat K 1] [Add K] [Sub K] [Mul K] [Div K] [Pow K ℕ]
+    (lsAt : K → List (MSLevel K d n)) (stop : Option (Vector K n)) (E : Vector K n) (wl wl' : K) :
+    (msForwardWf lsAt stop ⟨E, wl⟩).E = (msForwardWf lsAt stop ⟨E, wl'⟩).E ∧
+    (msForwardWf lsAt stop ⟨E, wl⟩).E = msForward (lsAt 1) stop E ∧
+    (msForwardWf lsAt stop ⟨E, wl⟩).wavelength = wl := ⟨rfl, rfl, rfl⟩
+
+/-- Without the rescaling the output does depend on the wavelength (so the previous theorem is a
+statement about the bookkeeping, not an artefact of the model): one level, one sample, a
+propagator that scales with the wavelength. -/
+theorem multiscale_wavelength_bad_counterexample :
+    let lsAt : ℚ → List (MSLevel ℚ 1 1) := fun wl =>
+      [{ raw := #v[1], win := #v[0], R := [], F := #v[#v[wl]], B := #v[#v[1]] }]
+    (msForwardWfBad lsAt none ⟨#v[1], 1⟩).E ≠ (msForwardWfBad lsAt none ⟨#v[1], 2⟩).E ∧
+    (msForwardWf lsAt none ⟨#v[1], 1⟩).E = (msForwardWf lsAt none ⟨#v[1], 2⟩).E := by
+  decide +kernel
+
+end MultiScaleAlgebra
+
+/-! ## `Spec`: the projector of an arbitrary orthonormal family (free-standing mathematics)
+
+For *any* finite orthonormal family `v` in *any* real or complex inner-product space the three
+clauses hold for `x ↦ x − Σ ⟪v i, x⟫ v i`; the last one is Bessel's inequality.  These statements
+speak about `projectOut`, a specification no driver runs: they are background, **not** evidence
+about the code (namespace `Spec` says so).  What carries the clauses for the code — complex
+apertures included, through the real `2n × 2k` form of the matrices — are the `perfectMat_*`
+theorems above, whose hypotheses `LeftInv` / `WAdjoint` / `NullsModes` are evaluated by the driver
+on the real object's `transformation` and `transformation_inverse` on every run. -/
 section Abstract
 variable {𝕜 E ι : Type*} [RCLike 𝕜] [NormedAddCommGroup E] [InnerProductSpace 𝕜 E] [Fintype ι]
 
-theorem orthonormal_nulls_span {v : ι → E} (hv : Orthonormal 𝕜 v) (x : E)
+theorem Spec.orthonormal_nulls_span {v : ι → E} (hv : Orthonormal 𝕜 v) (x : E)
     (hx : x ∈ Submodule.span 𝕜 (Set.range v)) : projectOut (𝕜 := 𝕜) v x = 0 := by
   obtain ⟨c, rfl⟩ := (Submodule.mem_span_range_iff_exists_fun 𝕜).1 hx
   unfold projectOut
   simp only [hv.inner_right_fintype, sub_self]
 
-theorem orthonormal_idempotent {v : ι → E} (hv : Orthonormal 𝕜 v) (x : E) :
+theorem Spec.orthonormal_idempotent {v : ι → E} (hv : Orthonormal 𝕜 v) (x : E) :
     projectOut (𝕜 := 𝕜) v (projectOut (𝕜 := 𝕜) v x) = projectOut (𝕜 := 𝕜) v x := by
   have h : ∀ i, inner 𝕜 (v i) (projectOut (𝕜 := 𝕜) v x) = 0 := inner_projectOut hv x
   generalize projectOut (𝕜 := 𝕜) v x = r at h ⊢
   unfold projectOut
   simp only [h, zero_smul, Finset.sum_const_zero, sub_zero]
 
-theorem orthonormal_power_le {v : ι → E} (hv : Orthonormal 𝕜 v) (x : E) :
+theorem Spec.orthonormal_power_le {v : ι → E} (hv : Orthonormal 𝕜 v) (x : E) :
     ‖projectOut (𝕜 := 𝕜) v x‖ ≤ ‖x‖ := by
   set r := projectOut (𝕜 := 𝕜) v x with hr
   set y := ∑ i, inner 𝕜 (v i) x • v i with hy
